@@ -55,6 +55,19 @@ impl<'a> PatGen<'a> {
             }
             5 => format!("{{{},}}", self.r.below(3)),
             6 => "{0}".into(),
+            7 => {
+                // larger counts: beyond the unroll threshold (5), and big maxima
+                match self.r.below(8) {
+                    0 => "{6}".to_string(),
+                    1 => "{6,7}".into(),
+                    2 => "{7,}".into(),
+                    3 => "{0,1000}".into(),
+                    4 => "{2,300}".into(),
+                    5 => "{6,9}".into(),
+                    6 => "{5,6}".into(),
+                    _ => "{0,100000}".into(),
+                }
+            }
             _ => return "".into(),
         };
         if self.r.chance(1, 3) {
@@ -65,7 +78,7 @@ impl<'a> PatGen<'a> {
     }
     fn atom(&mut self, depth: u32, lb: bool) -> (String, bool) {
         // returns (text, quantifiable)
-        let k = if depth == 0 { self.r.below(8) } else { self.r.below(19) };
+        let k = if depth == 0 { [0, 1, 2, 3, 4, 5, 6, 7, 18][self.r.below(9) as usize] } else { self.r.below(19) };
         match k {
             0 | 1 | 2 => (self.r.pick(LITS).to_string(), true),
             3 => (".".to_string(), true),
@@ -137,6 +150,9 @@ impl<'a> PatGen<'a> {
             }
             18 if self.r.chance(1, 3) => {
                 // a longer literal run (byte-sequence lowering, memmem prefilter)
+                if self.r.chance(1, 2) {
+                    return ("abcabcabcxabcabcabcx".to_string(), false);
+                }
                 let n = 2 + self.r.below(20);
                 let mut s = String::new();
                 for _ in 0..n {
@@ -187,6 +203,29 @@ const HAY_ALPHA: &[&str] = &["a", "b", "c", "a", "b", "é", "K", "k", "s", "S", 
 const ASCII_ALPHA: &[&str] = &["a", "b", "c", "a", "b", "K", "k", "s", "S", "\n", "x", "_", "1", "-", " ", "A", "B", "\r", "\x7f", "\0"];
 
 pub fn gen_hay(r: &mut Rng, ascii: bool) -> String {
+    if r.chance(1, 5) {
+        // runs of one character (counted loops), optionally framed
+        let c = *r.pick(&["a", "b", "x", "1", "_"]);
+        let k = 5 + r.below(9);
+        let mut s = String::new();
+        if r.chance(1, 2) {
+            s.push_str(*r.pick(&["x", "b", " ", "a"]));
+        }
+        for _ in 0..k {
+            s.push_str(c);
+        }
+        if r.chance(2, 3) {
+            s.push_str(*r.pick(&["b", "c", "x", " ", "z"]));
+        }
+        return s;
+    }
+    if r.chance(1, 8) {
+        // a long literal (longer than one 16-byte chunk), as the long-literal atoms use
+        let mut s = String::from(*r.pick(&["", "x ", "ab"]));
+        s.push_str("abcabcabcxabcabcabcx");
+        s.push_str(*r.pick(&["", "x", "abc"]));
+        return s;
+    }
     let lim = if r.chance(1, 4) { 25 } else { 7 };
     let n = r.below(lim);
     let mut s = String::new();
@@ -194,4 +233,32 @@ pub fn gen_hay(r: &mut Rng, ascii: bool) -> String {
         s.push_str(*r.pick(if ascii { ASCII_ALPHA } else { HAY_ALPHA }));
     }
     s
+}
+
+/// Deterministic family of small shapes: every body in every context, a few flag sets.
+/// Returns (pattern, flags, haystacks).
+pub fn shape_family() -> Vec<(String, String, Vec<String>)> {
+    let contexts = [
+        "{}", "x{}", "(?<={})", "(?<!{})x", "(?={})", "(?!{})", "(?<=(?={}))", "(?=(?<={}))", "(?<=a(?={})b?)", "(?<=(?<={}))c?",
+        "(?<=(?!{})..)", "(?:{})+", "({})\\1", "(?:{}|b)*?c", "(?<=({}))\\1?", "(?:(?:{})?){2}b",
+    ];
+    let bodies = [
+        "a", "abcabcabcxabcabcabcx", "abcdefghijklmnop", "abcdefghijklmnopq", "ééééééééé", "[ab]", "a|b", "(a)(b)", "a*", "a{6,7}?", "a{2,3}",
+        "[^a]", ".", "\\w+?", "(?:a|ab)(?:c|bcd)", "\\ud800", "K", "\\bx", "^a", "a$", "(?:)", "[a-c]{0,100000}", "(a?){3}",
+    ];
+    let flags = ["", "i", "u", "m"];
+    let hays = [
+        "", "a", "ab", "abc", "aab", "abcabcabcxabcabcabcx", "xabcabcabcxabcabcabcxb", "abcdefghijklmnop", "abcdefghijklmnopq", "xabcdefghijklmnopqx",
+        "ééééééééé", "aééééééééé", "aaaaaaaaaab", "xaaaaaaaac", "abcd", "acd", "K\u{212A}k", "a\nb", "x ax", "bbc", "aaaa",
+    ];
+    let mut out = vec![];
+    for c in contexts.iter() {
+        for b in bodies.iter() {
+            for f in flags.iter() {
+                let p = c.replace("{}", b).replace("\\\\", "\\");
+                out.push((p, f.to_string(), hays.iter().map(|h| h.to_string()).collect()));
+            }
+        }
+    }
+    out
 }
